@@ -2,6 +2,9 @@
 From Coq Require Import Strings.String.
 From RN Require Import Base.Bytes Base.Str Model.Edits Model.Fs Model.ApplyModel Model.UndoModel Model.Patch.
 From RN Require Import Proofs.RenameP Proofs.RenameP2 Proofs.PatchP Proofs.UndoP.
+From Coq Require Import Permutation.
+From RN Require Import Proofs.ApplySpecP Proofs.UndoSpecP.
+Open Scope N_scope.   (* the composition files close it; the byte literals below are N *)
 
 (* --- the text layer: whatever the hunk body is (any lines, including ones that look like headers:
    a deleted line "-- x" is rendered "--- x") and whatever bytes the two file names are made of,
@@ -74,6 +77,41 @@ Theorem C01_apply_then_undo_renames : forall rs t,
     undo_file_stage (undo_files rs) t2 = FOk t.
 Proof. exact apply_then_undo_renames. Qed.
 
+(* THE COMPOSITION undo o apply = identity, whole tree, contents included.  plan_ok: the hypothesis of C02_apply_is_spec, on the
+   ORIGINAL tree and plan - nothing is assumed about the order in which nested directory renames are reversed, about name sort order,
+   symlink targets or case-only renames.  restore_ok: the patch layer as an oracle (diffy's create_patch / apply; sampled on the real
+   library on every run) - keyed by ORIGINAL paths, each entry holds the file's original content, every file whose content changed has
+   one.  created_ok: no recorded "created directory" is an empty directory of the original tree ([] for every successful apply).
+   Equality as finite maps (a permutation with distinct keys: list order is not restored, UndoSpecP.undo_list_equality_refuted) *)
+Theorem C01_undo_apply_exact : forall p t restore created,
+  plan_ok p t -> restore_ok p t restore -> created_ok t created ->
+  let u := undo_core (ap_renames p) restore created (r_fs (apply_core no_fault p t)) in
+  u_ok u = true /\ u_failed u = [] /\
+  Permutation (u_fs u) t /\ NoDup (keys (u_fs u)) /\
+  (forall q, lookup (u_fs u) q = lookup t q).
+Proof. exact undo_apply_exact. Qed.
+
+(* the same with the content stage of undo as undo.rs really performs it - temp file beside the target, chmod, rename - which equals
+   the in-place model exactly when each patched file's temp name is free *)
+Theorem C01_undo_apply_exact_tmp : forall p t restore created,
+  plan_ok p t -> restore_ok p t restore -> created_ok t created ->
+  (forall f r, In (f, r) restore -> exists h, In h (ap_hunks p) /\ ah_file h = f) ->
+  let u := undo_core_tmp (ap_renames p) restore created (r_fs (apply_core no_fault p t)) in
+  u = undo_core (ap_renames p) restore created (r_fs (apply_core no_fault p t)) /\
+  u_ok u = true /\ u_failed u = [] /\ Permutation (u_fs u) t /\ NoDup (keys (u_fs u)) /\
+  (forall q, lookup (u_fs u) q = lookup t q).
+Proof. exact undo_apply_exact_tmp. Qed.
+
+(* nothing remains at or below any planned destination; the source of every planned rename is back with its kind *)
+Theorem C01_destinations_free_after_undo : forall p t restore created r q,
+  plan_ok p t -> restore_ok p t restore -> created_ok t created ->
+  In r (ap_renames p) -> path_prefix (ar_new r) q = true ->
+  lookup (u_fs (undo_core (ap_renames p) restore created (r_fs (apply_core no_fault p t)))) q = None.
+Proof. intros p t restore created r q W R C. exact (undo_destinations_free p t restore created W R C r q). Qed.
+
+Print Assumptions C01_undo_apply_exact.
+Print Assumptions C01_undo_apply_exact_tmp.
+Print Assumptions C01_destinations_free_after_undo.
 Print Assumptions C01_apply_then_undo_renames.
 Print Assumptions C01_rewrite_then_parse_keeps_body.
 Print Assumptions C01_header_names_roundtrip.
